@@ -2,6 +2,7 @@ package parser
 
 import (
 	"regexp"
+	"strings"
 
 	"github.com/robertkrimen/otto/ast"
 	"github.com/robertkrimen/otto/file"
@@ -138,6 +139,15 @@ func (p *parser) parseRegExpLiteral() *ast.RegExpLiteral {
 		flags = p.literal
 		endOffset = p.chrOffset
 		p.next()
+	}
+
+	// 7.8.5 / 15.10.4.1: flags other than g, i, m, or a repeated flag, are an
+	// early error of the literal.
+	for index, flag := range flags {
+		if !strings.ContainsRune("gim", flag) || strings.ContainsRune(flags[:index], flag) {
+			p.error(idx, "Invalid regular expression flags: %s", flags)
+			break
+		}
 	}
 
 	var value string
